@@ -460,6 +460,10 @@ func runPullLoops(f lib.Flags, res *lib.Result, drv *lib.Driver, rng *rand.Rand)
 	}
 	stalled := 0
 	for i, p := range cases {
+		if crashedStrategy(crashedFns, "all") {
+			mon.Count("skipped-crashing-entry-point") // the Groups here run Execute with All
+			continue
+		}
 		if stalled >= 2 {
 			// a subscription that does not take a message / does not end costs a full wait (and leaves its goroutines
 			// behind): after two such cases (the run has failed on them anyway) the remaining ones are skipped
